@@ -132,17 +132,21 @@ func TestCheck(t *testing.T) {
 	cfg := mon.Load("C15")
 	rep := mon.NewReporter(cfg,
 		"exploration",
-		"a case = successor type × 1..3 predecessors (START and/or lambda nodes) × 1..6 declarations (field mappings in all six constructor forms, "+
-			"whole-input AddInput, static values) generated over a 14-type universe (nested structs, pointers, pointer to pointer, map[string]T, "+
-			"map[string]any, any holes, interface-typed fields) with concrete predecessor outputs; every case is compiled in all declaration orders "+
-			"(<=4 declarations; 24 random orders above) 3x each. Non-trivial = the declaration set overlaps and >=2 orders were compiled, or it "+
-			"does not overlap, was accepted, has >=2 declarations or a nested path, and was run >=3x with Invoke and >=3x in stream mode with every "+
-			"run compared with the reference. Distinct = distinct (types, mapping set, static paths).",
+		"a case = successor input type x 1..3 predecessors (START and/or lambda nodes; successor = END or a lambda node) x 1..6 declarations "+
+			"(field mappings in all six constructor forms, AddInput without mappings, SetStaticValue) generated over a universe of 14 declared "+
+			"source and 14 target types (nested structs, pointers, pointer to pointer, map[string]T with struct/pointer/string elements, "+
+			"map[string]any, any holes, any- and Shape-typed fields) with concrete predecessor outputs (nil pointers / absent keys off the used "+
+			"paths, at most one hostile element on a used path); 40% of the cases get one overlapping declaration. Every case is compiled in "+
+			"all declaration orders (<=4 declarations; 24 random orders above), 3x each. Non-trivial = the declaration set overlaps and >=2 "+
+			"orders were compiled, or it does not overlap, was accepted, has >=2 declarations or a nested path, and two accepted orders were "+
+			"each run 3x with Invoke and 6x in stream mode (3 chunkings), every run compared with the reference, the predecessor outputs "+
+			"hashed after every run. Distinct = distinct (types, mapping set, static paths).",
 		[]string{
 			"the reference (own reflect walker for path get/set, overlap predicate, canonical rendering) is written from the property statement",
 			"where no value exists at a source path (absent map key, nil pointer or nil interface on the way) an error and 'target left unset' are both accepted, a panic is not",
 			"an untyped nil reaching a typed nillable position may be refused with an error",
 			"stream runs are compared chunk-wise (one target chunk per source chunk and predecessor, one for the static values), not through the framework's concat of user types",
+			"acceptance of non-overlapping sets is counted, not demanded (the property only speaks about accepted sets)",
 			"schedules/goroutine interleavings inside eino vary between runs and are not controlled",
 		},
 		cfg.Pick(800, 20000))
@@ -410,7 +414,8 @@ func (c *Case) attribute(mode string, e *expectation, o *outcome) string {
 			}
 		}
 	}
-	if mode == "stream" && c.hasRtChecked() && (strings.HasSuffix(site, "newGenericHelper.func") || (site == "" && c.invokeOK)) {
+	failed := o != nil && o.Kind != "value"
+	if mode == "stream" && failed && c.hasRtChecked() && (strings.HasSuffix(site, "newGenericHelper.func") || (site == "" && c.invokeOK)) {
 		// raised while the stream form of the pre-node converter is set up, or an error although the same
 		// compiled workflow conforms under Invoke: the failure is specific to the stream form
 		return fRtInStreamMode
